@@ -76,7 +76,7 @@ func TestC17(t *testing.T) {
 								}
 								// launch: the first launch of a fresh configuration; a second client built from
 								// the same *ClientConfig; the same client started again after a failed runner creation
-								for _, how := range []string{"first", "reuse", "retry", "cmd", "cmdenv", "reuseok", "cmdstdin", "symlinktmp"} {
+								for _, how := range []string{"first", "reuse", "retry", "cmd", "cmdenv", "reuseok", "cmdstdin", "symlinktmp", "cmdzero"} {
 									if how == "reuseok" && (len(sub) > 0 || grp != "" || ports[0] != 0 || ports[1] != 0 || auto || mux) {
 										continue // the configuration has served a real, successfully negotiated start before: plain configurations
 									}
@@ -84,6 +84,9 @@ func TestC17(t *testing.T) {
 										continue
 									}
 									if how == "cmdenv" && len(sub) == 0 {
+										continue
+									}
+									if how == "cmdzero" && (len(sub) > 0 || grp != "" || ports[0] != 0 || ports[1] != 0) {
 										continue
 									}
 									if how == "cmdstdin" && (len(sub) > 0 || grp != "" || ports[0] != 0 || ports[1] != 0) {
@@ -247,7 +250,10 @@ func TestC17(t *testing.T) {
 		if c.Host.Group != "" && eff["PLUGIN_UNIX_SOCKET_GROUP"] != c.Host.Group {
 			bad("socket group %q, configured %q", eff["PLUGIN_UNIX_SOCKET_GROUP"], c.Host.Group)
 		}
-		cmdLaunch := strings.Contains(c.Name, "launch=cmd ") || strings.Contains(c.Name, "launch=cmdenv ") || strings.Contains(c.Name, "launch=cmdstdin ")
+		cmdLaunch := strings.Contains(c.Name, "launch=cmd ") || strings.Contains(c.Name, "launch=cmdenv ") || strings.Contains(c.Name, "launch=cmdstdin ") || strings.Contains(c.Name, "launch=cmdzero ")
+		if strings.Contains(c.Name, "launch=cmdzero ") && r.StdinSeen != strings.Repeat("\x00", 10) {
+			bad("the launched command read %q from its stdin, the host's stdin is /dev/zero (ten NUL bytes expected)", r.StdinSeen)
+		}
 		if strings.Contains(c.Name, "launch=cmdstdin ") && r.StdinSeen != "HOST-STDIN" {
 			bad("the launched command read %q from its stdin, the host's stdin holds \"HOST-STDIN\" (the application had preset Cmd.Stdin)", r.StdinSeen)
 		}
